@@ -349,7 +349,7 @@ void ThreadPool::resizeLocked(ssize_t sn) {
     OnceFunction task;
     DISPENSO_VERIF_POINT("TpRzDrainRing", this);
     while (rings_[i].try_pop(task)) {
-      task();
+      executeNext(std::move(task));
       DISPENSO_VERIF_POINT("TpRzDrainRing", this);
     }
   }
@@ -357,7 +357,7 @@ void ThreadPool::resizeLocked(ssize_t sn) {
     OnceFunction task;
     DISPENSO_VERIF_POINT("TpRzDrainSteal", this);
     while (stealRings_[i].try_pop(task)) {
-      task();
+      executeNext(std::move(task));
       DISPENSO_VERIF_POINT("TpRzDrainSteal", this);
     }
   }
@@ -473,7 +473,7 @@ ThreadPool::~ThreadPool() {
     OnceFunction task;
     DISPENSO_VERIF_POINT("TpRzDrainRing", this);
     while (rings_[i].try_pop(task)) {
-      task();
+      executeNext(std::move(task));
       DISPENSO_VERIF_POINT("TpRzDrainRing", this);
     }
   }
@@ -481,7 +481,7 @@ ThreadPool::~ThreadPool() {
     OnceFunction task;
     DISPENSO_VERIF_POINT("TpRzDrainSteal", this);
     while (stealRings_[i].try_pop(task)) {
-      task();
+      executeNext(std::move(task));
       DISPENSO_VERIF_POINT("TpRzDrainSteal", this);
     }
   }
